@@ -646,8 +646,36 @@ pub fn size_strategy() -> impl Strategy<Value = usize> {
 /// appears directly before an LF (possibly across two calls).
 pub fn out_calls_strategy(allow_set_prompt: bool) -> impl Strategy<Value = Vec<OutCall>> {
     let units: Vec<&'static str> = vec!["", "x", "ok", "line one", "é", "Жук ₿", "\n", "\n", "\r\n", "a b  ", "-", "  ", "\n\n", "tail"];
-    let text = proptest::collection::vec(any::<u16>(), 0..4).prop_map(move |sel| sel.into_iter().map(|s| pick(&units, s)).collect::<Vec<_>>().concat());
-    let call = (0u8..13, text.clone(), text, 0usize..5, any::<bool>(), any::<u16>()).prop_map(move |(k, a, b, p, split, chs)| {
+    let short = proptest::collection::vec(any::<u16>(), 0..4).prop_map(move |sel| sel.into_iter().map(|s| pick(&units, s)).collect::<Vec<_>>().concat());
+    // now and then one long piece whose size (with every LF counted twice, as it goes out) lies around a multiple of 64:
+    // a writer that assembles its output in chunks must keep its end-of-line state right at every chunk size
+    let long = (prop_oneof![60usize..=68, 124usize..=132, 188usize..=196, 252usize..=260, 508usize..=516], 0u8..4).prop_map(|(n, shape)| {
+        let mut t = String::new();
+        match shape {
+            0 => t.push_str(&"x".repeat(n)),
+            1 => {
+                t.push_str(&"y".repeat(n.saturating_sub(2)));
+                t.push('\n');
+            }
+            2 => {
+                t.push_str("head ");
+                t.push_str(&"z".repeat(n.saturating_sub(7)));
+                t.push('\n');
+            }
+            _ => {
+                while t.len() + 2 * t.matches('\n').count() < n {
+                    if t.len() % 17 == 16 {
+                        t.push('\n');
+                    } else {
+                        t.push('w');
+                    }
+                }
+            }
+        }
+        t
+    });
+    let text = prop_oneof![24 => short, 1 => long].boxed();
+    let call = (0u8..15, text.clone(), text, 0usize..5, any::<bool>(), any::<u16>()).prop_map(move |(k, a, b, p, split, chs)| {
         let mut a = a;
         if split {
             a.push('\r'); // fixed up below unless the next call starts with LF
@@ -659,6 +687,7 @@ pub fn out_calls_strategy(allow_set_prompt: bool) -> impl Strategy<Value = Vec<O
             6 => OutCall::Uwrite(a),
             7..=8 => OutCall::Fmt(a.replace('\r', ""), b),
             9 => OutCall::UwriteChar(ch),
+            13 | 14 => OutCall::FmtLit((chs % 5) as u8),
             10 => OutCall::FmtChar(ch),
             11 => {
                 // handler only: print, then reject the command
@@ -711,7 +740,7 @@ fn fix_lone_cr(mut calls: Vec<OutCall>) -> Vec<OutCall> {
                             strip(bb, rel - a.len() - 1)
                         }
                     }
-                    OutCall::SetPrompt(_) | OutCall::UwriteChar(_) | OutCall::FmtChar(_) | OutCall::FailParse | OutCall::ListElement(..) | OutCall::Title(_) => false,
+                    OutCall::SetPrompt(_) | OutCall::UwriteChar(_) | OutCall::FmtChar(_) | OutCall::FailParse | OutCall::ListElement(..) | OutCall::Title(_) | OutCall::FmtLit(_) => false,
                 };
                 if !done {
                     // could not locate it (should not happen): drop all CRs of this call
@@ -721,7 +750,7 @@ fn fix_lone_cr(mut calls: Vec<OutCall>) -> Vec<OutCall> {
                             *a = a.replace('\r', "");
                             *bb = bb.replace('\r', "");
                         }
-                        OutCall::SetPrompt(_) | OutCall::UwriteChar(_) | OutCall::FmtChar(_) | OutCall::FailParse | OutCall::ListElement(..) | OutCall::Title(_) => {}
+                        OutCall::SetPrompt(_) | OutCall::UwriteChar(_) | OutCall::FmtChar(_) | OutCall::FailParse | OutCall::ListElement(..) | OutCall::Title(_) | OutCall::FmtLit(_) => {}
                     }
                 }
                 break;
@@ -795,6 +824,40 @@ pub fn case_strategy(o: GenOpts, sets: &'static [&'static str]) -> impl Strategy
                 arrow_params: ap == 0,
             },
             ops,
+        })
+        .prop_flat_map(move |c| {
+            // one session in 100 works on a long line in a large buffer: distances, lengths and counts beyond 255
+            let normal = Just(c.clone());
+            let long = (
+                prop_oneof![Just(300usize), Just(520), Just(700)],
+                prop_oneof![Just(0usize), Just(64), Just(600)],
+                prop_oneof![250usize..=262, 505usize..=518],
+                prop_oneof![Just(0usize), Just(3), 250usize..=262, 505usize..=518],
+                proptest::collection::vec(op_strategy(o), 1..8),
+            )
+                .prop_map(move |(cb, hb, len, lefts, tail)| {
+                    let mut c = c.clone();
+                    c.cfg.cmd_buf = cb;
+                    c.cfg.hist_buf = hb;
+                    let mut line = String::from("x ");
+                    let fill = ['a', 'b', ' ', 'é', 'c', 'd', '₿', 'e'];
+                    let mut k = 0;
+                    while line.chars().count() < len {
+                        line.push(fill[k % fill.len()]);
+                        k += 1;
+                    }
+                    let mut ops = vec![Op::Text(line)];
+                    ops.extend(std::iter::repeat(Op::Left).take(lefts));
+                    ops.extend(tail);
+                    ops.push(Op::Enter);
+                    ops.push(Op::Up);
+                    ops.extend(std::iter::repeat(Op::Left).take(lefts.min(300)));
+                    ops.push(Op::SetPrompt(3));
+                    ops.push(Op::Char('q'));
+                    c.ops = ops;
+                    c
+                });
+            prop_oneof![99 => normal, 1 => long]
         })
 }
 
